@@ -1,7 +1,8 @@
 (* Extraction of the keystore model for ocaml/keystore/driver.ml.  ExtrOcamlBasic only. *)
-From AQ Require Import Lib.Bytes Lib.ExtractBase Lib.Keccak Keystore.KeystoreModel.
+From AQ Require Import Lib.Bytes Lib.ExtractBase Lib.Keccak Keystore.KeystoreModel Keystore.StoreModel.
 Require Extraction.
 Require Import ExtrOcamlBasic.
 Extraction "../ocaml/keystore/model.ml" base_anchor keccak256
   hex_encode hex_decode padded_big_bytes get_kdf_key decrypt_key get_key encrypt_key
-  ks_step ks_run ks_init is_unlocked authenticates.
+  ks_step ks_run ks_init is_unlocked authenticates
+  cstep cs_init clock_unlocked.
